@@ -19,7 +19,8 @@ TRUSTED = ["Lean 4 kernel", "axioms: propext, Quot.sound, Classical.choice (at m
            "encoding/base64, regexp.Compile, strconv as total oracles"]
 ASSUMPTIONS = ["a panic in any goroutine kills the process (observed as CRASH by the harness)"]
 RULE = ("grammar-based streams: every command word x too few/too many arguments x option lists (valid, malformed, base64% values, huge "
-        "and negative integers) x regex specs x query texts, malformed envelopes (protocol word/version, missing base64, bad base64), "
+        "and negative integers) x regex specs x query texts (a fixed list plus the C11 generator's pool: rendered abstract queries, every "
+        "keyword directly followed by another clause, malformed classes, byte mutations), malformed envelopes (protocol word/version, missing base64, bad base64), "
         "several commands per stream, byte-level mutation; ops c10.decode (exact) and c10.run (real dispatch); non-trivial = a tag")
 
 QUERIES = [b"select count(x) from T group by y", b"", b"select", b"`", b"select `", b"select ` from T", b"select count(x", b"from T",
@@ -44,9 +45,27 @@ def envelope(rng, decoded):
                        b"protocol 4.1 base64 " + enc])
 
 
+_POOL = {}
+
+
+def query_pool(rng):
+    """query texts of the C11 generator (rendered abstract queries, every keyword directly followed by another
+    clause, malformed classes, byte mutations): what a client can put behind `map`"""
+    import random
+    from props import c11
+    key = id(rng)
+    if key not in _POOL:
+        sub = random.Random(rng.getrandbits(32))
+        _POOL.clear()
+        _POOL[key] = [bytes.fromhex(c.split(" ")[1]) for c in c11.gen(sub, 250, "quick") if c.split(" ")[1] not in ("-", "")]
+    return _POOL[key]
+
+
 def command(rng, run):
     w = rng.choice(WORDS)
     if w.startswith(b"map"):
+        if rng.random() < 0.5:
+            return b"map " + rng.choice(query_pool(rng))
         return b"map " + rng.choice(QUERIES) if rng.random() < 0.9 else b"map"
     if w == b".ack":
         return rng.choice([b".ack close connection", b".ack", b".ack close", b".ack x y z"])
@@ -61,6 +80,9 @@ def command(rng, run):
 
 
 def gen(rng, budget, tier):
+    # the whole query pool through NewAggregate (cheap: no goroutines)
+    for q in QUERIES + query_pool(rng):
+        yield "c10.query " + hexs(q)
     for i in range(budget):
         run = rng.random() < 0.25
         cmds = [command(rng, run) for _ in range(1 if run else rng.choice([1, 1, 1, 2, 3]))]
@@ -74,7 +96,7 @@ def gen(rng, budget, tier):
         yield ("c10.run " if run else "c10.decode ") + hexs(stream)
 
 
-PROJ = {"c10.run": lambda s: s if s.startswith(("CRASH", "PANIC", "NO-RESULT")) else "no-crash",
+PROJ = {"c10.query": lambda s: "no-panic" if not s.startswith(("CRASH", "PANIC", "NO-RESULT")) else s, "c10.run": lambda s: s if s.startswith(("CRASH", "PANIC", "NO-RESULT")) else "no-crash",
         "c10.decode": lambda s: s if s.startswith(("CRASH", "PANIC", "NO-RESULT")) else "no-panic"}
 
 
